@@ -68,6 +68,18 @@ def _k2huge(seed):
     return Driver("k2huge", [two_regime_series(9, 1, 3) * 1e3], W=2, K=2, beta=1.0, m=2)
 
 
+@driver("k2e5")
+def _k2e5(seed):
+    # raw-unit data: standard deviation ~1e5, precision-matrix entries ~1e-10
+    return Driver("k2e5", [two_regime_series(9, 1, 3) * 1e5], W=2, K=2, beta=1.0, m=2)
+
+
+@driver("k2off")
+def _k2off(seed):
+    # small spread on a large additive offset (one-pass moment formulas cancel here)
+    return Driver("k2off", [two_regime_series(9, 1, 3) * 0.05 + 1e6], W=2, K=2, beta=1.0, m=2, biased=True)
+
+
 @driver("k2w3")
 def _k2w3(seed):
     return Driver("k2w3", [two_regime_series(10, 1, 13)], W=3, K=2, beta=1.5, m=2)
